@@ -4,6 +4,7 @@ import DaskModel.Model.Overlap
 import DaskModel.Model.Frame
 import DaskModel.Model.TreeReduce
 import DaskModel.Model.RelExpr
+import DaskModel.Model.OrRewrite
 open Dask
 
 /-! Line-protocol handlers of group dfrows (C36 C37 C42 C43 C46). Cells: an integer or `none`. -/
@@ -480,6 +481,31 @@ def hOptCheck : Handler := handler fun args =>
     pure (.list (go es))
   | _ => none
 
+open Dask.OrRewrite in
+partial def toP? : SExp → Option P
+  | .list [.sym "atom", .int n] => if n ≥ 0 then some (.atom n.toNat) else none
+  | .list [.sym "and", a, b] => do pure (.and (← toP? a) (← toP? b))
+  | .list [.sym "or", a, b] => do pure (.or (← toP? a) (← toP? b))
+  | _ => none
+
+open Dask.OrRewrite in
+def ofP : P → SExp
+  | .atom n => .list [.sym "atom", .int n]
+  | .and a b => .list [.sym "and", ofP a, ofP b]
+  | .or a b => .list [.sym "or", ofP a, ofP b]
+
+/-- `(rewritefilters p)` ↦ the predicate `rewrite_filters` returns; `(orcomps p)` / `(andcomps p)` ↦ component lists -/
+def hRewriteFilters : Handler := handler fun args =>
+  match args with
+  | [p] => do pure (ofP (Dask.OrRewrite.rewriteFilters (← toP? p)))
+  | _ => none
+
+def hPredComps : Handler := handler fun args =>
+  match args with
+  | [.sym "or", p] => do pure (.list ((Dask.OrRewrite.orComps (← toP? p)).map ofP))
+  | [.sym "and", p] => do pure (.list ((Dask.OrRewrite.andComps (← toP? p)).map ofP))
+  | _ => none
+
 /-- `(metaof (cols…) e)` ↦ `(frame (cols…))` | `series` | `scalar` | `none` -/
 def hMetaOf : Handler := handler fun args =>
   match args with
@@ -502,6 +528,7 @@ def table : List (String × Handler) := [
   ("pipe", hPipe), ("pipespec", hPipeSpec),
   ("treeshape", hTreeShape), ("reduce", hReduce), ("reducespec", hReduceSpec),
   ("reduce2", hReduce2), ("reduce2spec", hReduce2Spec), ("idxfn", hIdxFn), ("vcfn", hVcFn), ("mmfn", hMmFn),
-  ("opteval", hOptEval), ("optcheck", hOptCheck), ("metaof", hMetaOf)]
+  ("opteval", hOptEval), ("optcheck", hOptCheck), ("metaof", hMetaOf),
+  ("rewritefilters", hRewriteFilters), ("predcomps", hPredComps)]
 
 def main : IO Unit := runDriver table
